@@ -2320,12 +2320,13 @@ def self_call_binds_rule(index, rep, rid, modules):
     for m in modules:
         for f in index.functions_in_module(m):
             for c in calls_in(f.node, nested=True):
-                if not (isinstance(c.func, ast.Attribute) and norm(c.func.value) == "self"):
+                own = isinstance(c.func, ast.Attribute) and norm(c.func.value) == "self"
+                if not own and not isinstance(c.func, (ast.Name, ast.Attribute)):
                     continue
                 grade, cands = index.resolve_call(c, f)
                 cs = [x for x in cands if hasattr(x, "node") and isinstance(x.node, ast.FunctionDef)]
-                if grade != "self" or len(cs) != 1:
-                    continue
+                if len(cs) != 1 or not ((own and grade == "self") or (not own and grade == "static" and cs[0].cls is None)):
+                    continue        # own methods, and module-level functions resolved statically (Class.method(self, ...) calls pass the receiver explicitly and are not bound here)
                 k = cs[0]
                 if any(isinstance(x, ast.Starred) for x in c.args) or any(kw.arg is None for kw in c.keywords):
                     continue
